@@ -1,5 +1,6 @@
 import SpoxModel.Lemmas.Types
 import SpoxModel.Lemmas.TypesBroadcastConv
+import SpoxModel.Lemmas.TypesBroadcastAlg
 import SpoxModel.Generated.Dtypes
 import SpoxModel.Generated.TypeOverrides
 /-!
@@ -518,6 +519,12 @@ theorem isConcrete_spec (e : Nat) (s : Shape) (t : Ty) :
     isConcrete (.tensor e s) = s.truthy ∧ s.truthy = s.maybeRank.isSome ∧
       isConcrete (.seq t) = true ∧ isConcrete (.opt t) = true := by
   cases s <;> simp [isConcrete, Shape.truthy, Shape.maybeRank]
+
+/-- **Broadcasting a shape with itself is the identity** (mini-round): `s.broadcast(s) = s` for every shape - any rank,
+    constant / named / anonymous dimensions (names kept verbatim), unknown rank; it never raises. -/
+theorem broadcast_idem (a : Shape) : broadcast a a = some a := Types.broadcast_self a
+
+example : broadcast (some [.unk "N", .const 3, .unk ""]) (some [.unk "N", .const 3, .unk ""]) = some (some [.unk "N", .const 3, .unk ""]) := by decide
 
 /-! ## What the model covers (tie G: inventory of the type layer's classes and deciding methods) -/
 
